@@ -3,6 +3,23 @@
 NA = {}
 
 CHECKS = {
+    "C01": {
+        "text": "Generated-input search with an exact-rational time ledger (TAI seconds from astropy's two doubles): single slices of every class/"
+                "rate/bounds/step, and a rule-based state machine composing slices, fast_len, cropped time shifts, snippets in every form, "
+                "coherent and incoherent dedispersion, with length, start/stop time, rate, dt, membership and moved-sample identity checked after "
+                "every step. Exploration: thousands of generated pipelines per run, not a proof.",
+        "ref": "DESIGN.md section 4 C01",
+        "note": "trusts astropy's UTC->TAI conversion and Python Fractions; tolerance 12 ps per op + 4 eps of the offset (stated in evidence assumptions)",
+        "technique": "property-based testing: Hypothesis given + RuleBasedStateMachine vs exact-rational ledger",
+    },
+    "C02": {
+        "text": "Generated radio signals of every class (nchan 1..17, each alignment, centre/bandwidth over decades and units) checked against the "
+                "exact-rational band model; nested time+channel slices with negative/open bounds and Stokes/trailing-axis selections must carry "
+                "exactly the selected labels of the original. Exploration.",
+        "ref": "DESIGN.md section 4 C02",
+        "note": "labels compared within (8+2*depth) ulp of the largest label; generator bound chan_bw/|center_freq| >= 1e-9",
+        "technique": "property-based testing: Hypothesis vs exact-rational label model",
+    },
     "C18": {
         "text": "Generated-input search against an independent table of all 7-smooth numbers below 2^64: exhaustive for 0 <= N < 10^6 (10^7 thorough), "
                 "at s-1, s, s+1 and the midpoint for the 7-smooth s < 2^62 (all of them in the thorough tier), Hypothesis integers over [0, 2^62), and "
